@@ -875,6 +875,14 @@ def _drv_specs(tier):
     for d in ('first', 'second', 'third', 'spd', 'tpd'):
         add(d, '-', 0, 1)
         specs.append(('-', f'drv:{d}:-:cubic', 0))
+        specs.append(('-', f'drv:{d}:-:quot', 0))
+    for dims in ('s2', 'd2'):
+        specs.append(('-', f'drv:gradient:{dims}:quot', 0))
+        specs.append(('-', f'drv:hessian:{dims}:quot', 0))
+    specs.append(('-', 'drv:jacobian:s2x2:quot', 0))
+    specs.append(('-', 'drv:phess:s2x1:quot', 0))
+    specs.append(('-', 'drv:phess:d2x2:quot', 0))
+    specs.append(('-', 'drv:tpdv:2:quot:0,1,1', 0))
     ns = [1, 2, 3] if tier == 'quick' else [1, 2, 3, 4]
     for st in ('s', 'd'):
         for n in ns:
@@ -1029,11 +1037,29 @@ def _c05_chunk(run, specs):
                 # ---- cubic closure: end-to-end derivative values against sympy
                 snames = [n for (n, _v) in res['scalars']]
                 coef = [n for n in snames if n.startswith('c')]
-                xn = [n for n in snames if not n.startswith('c')]
+                xn = [n for n in snames if not n.startswith(('c', 'q'))]
                 xs = [sp.Symbol(n, real=True) for n in xn]
                 env = {s: ir.var(s.name) for s in xs}
 
                 def poly(prefix):
+                    if mode == 'quot':
+                        qp = 'q' + prefix[1:]
+                        num = 0
+                        lin = 0
+                        for cn in snames:
+                            if cn.startswith(qp + 'n_'):
+                                cs = sp.Symbol(cn, real=True)
+                                env[cs] = ir.var(cn)
+                                mon = cs
+                                for s_, e in zip(xs, cn.split('_')[1:]):
+                                    mon = mon * s_ ** int(e)
+                                num = num + mon
+                            elif cn.startswith(qp + 'l_'):
+                                cs = sp.Symbol(cn, real=True)
+                                env[cs] = ir.var(cn)
+                                idx = cn.split('_')[1]
+                                lin = lin + (cs if idx == 'c' else cs * xs[int(idx)])
+                        return num / (1 + lin ** 2)
                     p = 0
                     for cn in coef:
                         pf, *ex = cn.split('_')
@@ -1050,7 +1076,7 @@ def _c05_chunk(run, specs):
                 def D(p, *idx):
                     for i in idx:
                         p = sp.diff(p, xs[i])
-                    return jets.sympy_to_ir(sp.expand(p), env)
+                    return jets.sympy_to_ir(sp.expand(p) if mode == 'cubic' else sp.together(p), env)
                 if drv in ('first', 'second', 'third'):
                     p = poly('c')
                     order = {'first': 1, 'second': 2, 'third': 3}[drv]
@@ -1321,6 +1347,8 @@ IDIOMS = [
     (1, 'k0.5,x0,sq1p,ln,addas,x0,exp,mulas'),
     (2, 'k2.0,x0,x1,sub,sq1p,divas,x1,subas'),
     (1, 'x0,k3.0,subas,x0,mul,k1.5,x0,cos,mulas,sub'),
+    # two-argument arctangent on its whole domain (x, y) != (0, 0), both axes included
+    (2, 'x0,x1,atan2,x1,mul'),
 ]
 
 
@@ -1346,6 +1374,8 @@ def idiom_programs(max_vars):
                 b = st.pop(); a = st.pop(); st.append(a / b)
             elif tok == 'sq1p':
                 a = st.pop(); st.append(1 + a * a)
+            elif tok == 'atan2':
+                b = st.pop(); a = st.pop(); st.append(_sp.atan2(a, b))
             elif tok == 'sin':
                 st.append(_sp.sin(st.pop()))
             elif tok == 'cos':
@@ -1361,7 +1391,7 @@ def idiom_programs(max_vars):
 
 
 def gen_programs(seed, count, max_vars=3, max_depth=4, single_path=False):
-    out = idiom_programs(max_vars)
+    out = [q for q in idiom_programs(max_vars) if not (single_path and 'atan2' in q[1])]
     count += len(out)
     rng = random.Random(1000 + seed)
     tries = 0
@@ -1418,7 +1448,10 @@ def _c03_chunk(run, items):
                 continue
             y = algebra.leaves_terms(terms, res['outputs'][0][1])
             obs = [(f'y#{i}', a, b) for i, (a, b) in enumerate(zip(y, oracle))]
-            pctx = PathCtx(run, case, path, terms, [])
+            assume = []
+            if ','.join(toks) == 'x0,x1,atan2,x1,mul':
+                assume = [('or', ('ne', ins[0][0], ZERO), ('ne', ins[1][0], ZERO))]
+            pctx = PathCtx(run, case, path, terms, assume)
             decide_path(run, case, pctx, obs, 'C03:program', revars=revars_of(res, terms))
         if len(run.samples) < 4:
             run.sample({'shape': sh, 'program_rpn': ','.join(toks), 'scalar_function': str(expr)[:300],
